@@ -259,7 +259,7 @@ struct History {
   FatalOutcome provoke(const std::function<void()> &call) { FatalOutcome f;
     if (cfg.fatal_mode == 0) { Quiet q; try { call(); f.returned = true; } catch (int e) { f.terminated = true; f.code = e; } catch (...) { f.terminated = true; f.code = -2; } f.out = q.str(); return f; }
     int pfd[2]; if (pipe(pfd) != 0) return f; fflush(stdout); std::cout.flush(); pid_t pid = fork();
-    if (pid == 0) { close(pfd[0]); dup2(pfd[1], 1); close(pfd[1]); call(); std::cout.flush(); _exit(42); }
+    if (pid == 0) { alarm(60); /* one API call; a process that is still alive after 60 s did not terminate */ close(pfd[0]); dup2(pfd[1], 1); close(pfd[1]); call(); std::cout.flush(); _exit(42); }
     close(pfd[1]); char buf[4096]; ssize_t n; while ((n = read(pfd[0], buf, sizeof buf)) > 0) f.out.append(buf, n); close(pfd[0]); int st = 0; waitpid(pid, &st, 0);
     if (WIFEXITED(st)) { if (WEXITSTATUS(st) == 42) f.returned = true; else { f.terminated = true; f.code = WEXITSTATUS(st); } } else { f.terminated = true; f.code = -1000 - (WIFSIGNALED(st) ? WTERMSIG(st) : 0); }
     return f; }
